@@ -16,6 +16,9 @@ clauses (names as they appear in `margins` / violations)
                       geometry displaced + force = None) -> run B on the SAME Molecule: all row clauses on run B incl. vv-x / vv-v
                       with ITS stored forces, step 0 = the carried state (1e-15), coordinates / velocities / Ek+Ep equal to a
                       fresh Molecule started from the same (x, v) on the same surface (1e-7), order ratio of B in [3, 5.5]
+  cadence cells       Ek/T rows, P-conservation, verlet-x-v (x(n+2)-x(n) = 2 dt v(n+1), 1e-13 + 1e-12 |dx|), F-sp / Ep-sp observed THROUGH
+                      UNEQUAL stream cadences (e.g. coordinates 2 / velocities 1 / forces 3, coordinates disabled): each stream row is
+                      what its name and step label say
   eps-* / looseeps-*  excited-surface NVE whose user scf_eps (1e-3..1e-5) is looser than 0.1 x CIS tolerance: the reported scf_eps is
                       <= 0.1 tol, the live solver threshold equals the reported one, dt-halving clauses hold at the tightened
                       threshold, and the trajectory equals (1e-9 A / eV) that of a run whose user scf_eps IS the tightened value
@@ -63,7 +66,7 @@ ASSUMPTIONS = ["float64 CPU, scf_eps 1e-10 so that SCF noise (<=2e-7 eV/A in for
                "atomic masses of the shipped table are the property's given"]
 REQUIRED_MONITORS = ["md_runs", "rows_checked", "order_ratios", "energy_ratios", "reversal_pairs", "single_points",
                      "constants_checked", "molid_subset_files", "momentum_mode_files", "net_L_files", "net_P_files", "continuations", "loose_eps_excited_cells",
-                     "noreuse_nonautograd_cells", "dipole_rows", "state_energy_rows"]
+                     "noreuse_nonautograd_cells", "dipole_rows", "state_energy_rows", "unequal_cadence_rows"]
 CASE_TIMEOUT = 1500.0
 BUDGET_S = {"quick": 200, "thorough": 1700}
 
@@ -179,6 +182,16 @@ def gen_cases(tier, seed):
                     dict(mol="H2O", method="AM1", force="excited", dt=0.25, n=10, eps=1e-6),
                     dict(mol="CH3OH", method="MNDO", force="analytical", dt=0.5, n=8, eps=1e-8),
                     dict(mol="CH2O", method="PM3", force="excited", dt=0.5, n=8, eps=1e-8)]
+    cad = [dict(mols=["H2O"], method="AM1", cad=dict(data=1, coordinates=2, velocities=1, forces=3), molid=None, dt=0.2, n=12),
+           dict(mols=["NH3", "H2O"], method="PM3", cad=dict(data=1, coordinates=0, velocities=1, forces=2), molid=[1, 0], dt=0.2, n=12)]
+    if tier != "quick":
+        cad += [dict(mols=["CH2O"], method="AM1", cad=dict(data=2, coordinates=2, velocities=1, forces=4), molid=None, dt=0.5, n=16),
+                dict(mols=["H2O", "CH4"], method="AM1", cad=dict(data=1, coordinates=4, velocities=1, forces=1), molid=[1], dt=0.2, n=16),
+                dict(mols=["NH3"], method="MNDO", cad=dict(data=3, coordinates=0, velocities=1, forces=3), molid=None, dt=0.2, n=15),
+                dict(mols=["CH3OH"], method="PM3", cad=dict(data=1, coordinates=1, velocities=2, forces=3), molid=None, dt=0.2, n=12)]
+    for c_ in cad:
+        c_.update(kind="cadence", T=300.0, geom_seed=s())
+        cases.append(c_)
     for c_ in loose:
         c_.update(kind="loose-eps", T=300.0, geom_seed=s())
         cases.append(c_)
@@ -210,6 +223,8 @@ def _cost(c):
         return c["n"]
     if c["kind"] == "momentum":
         return c["n"] * len(c["modes"])
+    if c["kind"] == "cadence":
+        return 1.5 * c["n"] * len(c["mols"]) ** 0.5
     if c["kind"] == "loose-eps":
         return (sum(c["t_end"] / dt for dt in c["dts"]) + c["t_end"] / c["dts"][0]) * 2.5
     if c["kind"] == "noreuse":
@@ -684,6 +699,109 @@ def _continue(case):
     return acc.result(ok, obs)
 
 
+def _cadence(case):
+    """the same observations made THROUGH UNEQUAL STREAM CADENCES (incl. a disabled coordinates stream): every stream row is what its
+    name and step label say.  Independent relations between the streams of one file: Ek/T row vs the /velocities row of the same
+    step, P conserved over the /velocities rows, exact velocity-Verlet identity x(n+2) - x(n) = 2 dt v(n+1) between /coordinates and
+    /velocities rows (coordinates reconstructed from the supplied x0 with that identity when the stream is disabled), Ep and the
+    /forces row vs a cold single point at the (stored or reconstructed) coordinates of that step."""
+    from vlib import env, md, run
+
+    acc = _Acc(case)
+    S, C, V, Zs = _system(case)
+    sett = _settings(case)
+    molid = list(case.get("molid") or range(len(S)))
+    n, dt, cad = case["n"], case["dt"], case["cad"]
+    with env.Scratch("c08") as d:
+        r = md.run_md("basic", S, C, sett, dt, case["T"], n, d + "/u", molid=molid, velocities=V, reuse_P=True, remove_com=None,
+                      out_kw=dict(cad))
+    if r["error"]:
+        return {"inconclusive": "md.run raised: " + r["error"][:300]}
+    acc.mon["md_runs"] += 1
+    live = md.live_constants()
+    good = 0
+    obs = {"cadences": cad}
+    for k in molid:
+        h, Zr = r["h5"].get(k), Zs[k]
+        if h is None:
+            acc.upd("steps-rows", 1.0, 0.5, {"mol": k, "what": "file missing"})
+            continue
+        mm = md.masses(Zr)
+        nat = len(Zr)
+        ok = True
+        rows = {}
+        for name, key in (("data", "data_steps"), ("coordinates", "coordinates_steps"), ("velocities", "velocities_steps"), ("forces", "forces_steps")):
+            c_ = int(cad.get(name, 0))
+            got = h.get(key)
+            want = np.arange(0, n + 1, c_) if c_ > 0 else None
+            if (want is None) != (got is None) or (want is not None and (len(got) != len(want) or np.any(np.asarray(got) != want))):
+                acc.upd("steps-rows", 1.0, 0.5, {"mol": k, "stream": name, "cadence": c_, "got": None if got is None else np.asarray(got).tolist()[:40]})
+                ok = False
+            elif want is not None:
+                rows[name] = {int(s_): i for i, s_ in enumerate(want)}
+        if not ok:
+            continue
+        acc.upd("steps-rows", 0.0, 0.5)
+        vel = h["velocities"]
+        fin = np.isfinite(vel).all() and ("coordinates" not in h or np.isfinite(h["coordinates"]).all()) and np.isfinite(h["forces"]).all()
+        if not fin:
+            acc.upd("finite", 1.0, 0.5, {"mol": k})
+            continue
+        x0 = np.asarray(C[k], float)[:nat]
+        # step 0 rows are the supplied state
+        acc.flag("cadence-step0", not np.array_equal(vel[rows["velocities"][0]], V[k][:nat]) or
+                 ("coordinates" in rows and not np.array_equal(h["coordinates"][rows["coordinates"][0]], x0)), {"mol": k})
+        # (1) thermo rows vs the velocities row of the same step
+        nrow = 0
+        for s_, i in rows["data"].items():
+            if s_ in rows["velocities"]:
+                v = vel[rows["velocities"][s_]]
+                ek = md.kinetic_amu(mm, v) * live["KINETIC_ENERGY_SCALE"]
+                acc.upd("Ek-row-live", abs(ek - h["Ek"][i]) / max(abs(h["Ek"][i]), 1e-300), TOL_ROW_LIVE, {"mol": k, "step": s_, "cadences": cad})
+                acc.upd("T-row-live", abs(2.0 * h["Ek"][i] * live["TEMPERATURE_SCALE"] / (3.0 * nat) - h["T"][i]) / max(abs(h["T"][i]), 1e-300),
+                        TOL_ROW_LIVE, {"mol": k, "step": s_})
+                nrow += 1
+        # (2) momentum over the velocities rows
+        vs = sorted(rows["velocities"])
+        P = np.array([(mm[:, None] * vel[rows["velocities"][s_]]).sum(0) for s_ in vs])
+        ps = _mx((mm * np.linalg.norm(vel[rows["velocities"][s_]], axis=1)).sum() for s_ in vs)
+        acc.upd("P-conservation", float(np.max(np.abs(P - P[0]))), TOL_P * ps, {"mol": k, "cadences": cad})
+        # (3) exact Verlet identity between the coordinate and velocity streams; reconstruct even-step coordinates if needed
+        xs = {}
+        if "coordinates" in rows:
+            xs = {s_: h["coordinates"][i] for s_, i in rows["coordinates"].items()}
+            for s_ in sorted(xs):
+                if s_ + 2 in xs and s_ + 1 in rows["velocities"]:
+                    e = np.abs(xs[s_ + 2] - xs[s_] - 2.0 * dt * vel[rows["velocities"][s_ + 1]]).max()
+                    acc.upd("verlet-x-v", e, 1e-13 + 1e-12 * np.abs(xs[s_ + 2] - xs[s_]).max(), {"mol": k, "steps": [s_, s_ + 1, s_ + 2], "cadences": cad})
+                    nrow += 1
+        else:
+            xs = {0: x0}
+            s_ = 0
+            while s_ + 2 <= n and s_ + 1 in rows["velocities"]:
+                xs[s_ + 2] = xs[s_] + 2.0 * dt * vel[rows["velocities"][s_ + 1]]
+                s_ += 2
+        # (4) Ep and the force row vs a cold single point at the coordinates of that step
+        common = [s_ for s_ in sorted(rows["forces"]) if s_ in xs]
+        for s_ in [common[0], common[-1]] if len(common) > 1 else common:
+            sp = run.single_point(Zr, xs[s_], sett)
+            if sp["notconverged"] is not None and bool(np.any(sp["notconverged"])):
+                continue
+            acc.upd("F-sp", np.abs(sp["force"][0] - h["forces"][rows["forces"][s_]]).max(), 1e-6 + 2e3 * EPS,
+                    {"mol": k, "step": s_, "cadences": cad, "coordinates": "stored" if "coordinates" in rows else "reconstructed"})
+            if s_ in rows["data"]:
+                acc.upd("Ep-sp", abs(float(sp["Etot"][0]) - float(h["Ep"][rows["data"][s_]])), 1e-8 + 20 * EPS + (0 if "coordinates" in rows else 1e-9),
+                        {"mol": k, "step": s_})
+            acc.mon["single_points"] += 1
+            nrow += 1
+        acc.mon["unequal_cadence_rows"] += nrow
+        acc.mon["rows_checked"] += nrow
+        good += 1
+        acc.cells.append("cadence/%s/%s/d%dc%dv%df%d" % (case["method"], "+".join(case["mols"]), cad.get("data", 0), cad.get("coordinates", 0),
+                                                         cad.get("velocities", 0), cad.get("forces", 0)))
+    return acc.result(good > 0, obs)
+
+
 def _single(case):
     g = np.random.default_rng(case["geom_seed"])
     Z, X, q, m = gen.molecule(case["mol"])
@@ -932,6 +1050,8 @@ def run_case(case):
         return _momentum(case)
     if kind == "continue":
         return _continue(case)
+    if kind == "cadence":
+        return _cadence(case)
     if kind == "loose-eps":
         return _loose_eps(case)
     if kind == "noreuse":
